@@ -25,6 +25,7 @@ const (
 	opReload = 2
 	opSetID  = 3
 	opJoinPartial = 4
+	opJoinOlder   = 5
 )
 
 type histCfg struct {
@@ -37,12 +38,14 @@ type histCfg struct {
 	emptyAt  int  // index of the append that carries an empty payload (-1 = none)
 	realIO   bool // the real default CBOR codec over the store's DAG service and real (keystore) identities
 	setID    bool // step kind "set identity": the replica switches to the next writer identity
+	denyP    int  // every replica refuses the entry carrying the denyP-th payload: a refused local append (-1 = none)
+	older    bool // step kind "join older": merge a log holding the source's entries without its heads (what loading an older hash yields)
 	partial  bool // step kind "join partial": merge a log holding only the source's head entries (what a length-limited load yields)
 }
 
 func histParams() histCfg {
 	return histCfg{R: vx.Param("R", 2), K: vx.Param("K", 3), W: vx.Param("W", 2), sort: vx.Param("SORT", sortHash),
-		symClock: vx.Param("SYMCLOCK", 0) == 1, reload: vx.Param("RELOAD", 0) == 1, deny: vx.Param("DENY", 0) == 1, pcN: vx.Param("PCN", 1), emptyAt: vx.Param("EMPTYAT", -1), realIO: vx.Param("REALIO", 0) == 1, setID: vx.Param("SETID", 0) == 1, partial: vx.Param("PARTIAL", 0) == 1}
+		symClock: vx.Param("SYMCLOCK", 0) == 1, reload: vx.Param("RELOAD", 0) == 1, deny: vx.Param("DENY", 0) == 1, pcN: vx.Param("PCN", 1), emptyAt: vx.Param("EMPTYAT", -1), realIO: vx.Param("REALIO", 0) == 1, setID: vx.Param("SETID", 0) == 1, partial: vx.Param("PARTIAL", 0) >= 1, older: vx.Param("PARTIAL", 0) == 2, denyP: vx.Param("DENYP", -1)}
 }
 
 var pcTable = []int{0, 2, 4, 3, 8, -1, 16, 1}
@@ -96,6 +99,9 @@ func newHist(cfg histCfg) *hist {
 		if cfg.deny && r == 0 && cfg.W > 1 {
 			o.AccessController = &denyWriter{id: h.ids[cfg.W-1].ID}
 		}
+		if cfg.denyP >= 0 {
+			o.AccessController = &denyPayload{p: []byte{'p', byte('0' + cfg.denyP)}, inner: o.AccessController}
+		}
 		h.acs = append(h.acs, o.AccessController)
 		if cfg.symClock {
 			o.Clock = entry.NewLamportClock(h.writerOf(r).PublicKey, vx.IntRange("clock0", 0, 1<<40))
@@ -126,6 +132,10 @@ func (h *hist) run(pre func(h *hist), post func(h *hist)) {
 	if h.cfg.partial {
 		nOps += R * (R - 1)
 	}
+	baseOlder := nOps
+	if h.cfg.older {
+		nOps += R * (R - 1)
+	}
 	for s := 0; s < h.cfg.K; s++ {
 		h.step = s
 		op := 0
@@ -134,6 +144,12 @@ func (h *hist) run(pre func(h *hist), post func(h *hist)) {
 		}
 		h.res, h.err, h.pc = nil, nil, 0
 		switch {
+		case op >= baseOlder:
+			k := op - baseOlder
+			h.kind, h.dst, h.src = opJoinOlder, k/(R-1), k%(R-1)
+			if h.src >= h.dst {
+				h.src++
+			}
 		case op >= base:
 			k := op - base
 			h.kind, h.dst, h.src = opJoinPartial, k/(R-1), k%(R-1)
@@ -179,6 +195,16 @@ func (h *hist) run(pre func(h *hist), post func(h *hist)) {
 			_, h.err = h.logs[h.dst].Join(h.logs[h.src], -1)
 		case opJoinPartial:
 			part := newLogOpt(h.api, h.writerOf(h.src), &ipfslog.LogOptions{SortFn: h.sortFn(), IO: h.io(), Entries: orderedMapOf(h.logs[h.src].Heads().Slice())})
+			_, h.err = h.logs[h.dst].Join(part, -1)
+		case opJoinOlder:
+			hs := hashSet(h.logs[h.src].Heads().Slice())
+			var old []iface.IPFSLogEntry
+			for _, e := range entriesOf(h.logs[h.src]) {
+				if !hs[hstr(e)] {
+					old = append(old, e)
+				}
+			}
+			part := newLogOpt(h.api, h.writerOf(h.src), &ipfslog.LogOptions{SortFn: h.sortFn(), IO: h.io(), Entries: orderedMapOf(old)})
 			_, h.err = h.logs[h.dst].Join(part, -1)
 		case opSetID:
 			h.cur[h.dst] = (h.cur[h.dst] + 1) % h.cfg.W
